@@ -194,6 +194,8 @@ func buildItem(class string, reqOp kmip.Operation, good kmip.OperationPayload, i
 			bi.ResultReason = kmip.ResultReasonItemNotFound
 		case "unknown":
 			bi.ResultReason = unknownReason
+		case "pl":
+			bi.ResultReason = kmip.ResultReasonItemNotFound
 		}
 	case "P":
 		bi.ResultStatus = kmip.ResultStatusOperationPending
@@ -202,6 +204,9 @@ func buildItem(class string, reqOp kmip.Operation, good kmip.OperationPayload, i
 	case "U":
 		bi.ResultStatus = unknownStatus
 		bi.ResultMessage = msg
+	}
+	if parts[0] != "S" && len(parts) > 2 && parts[2] == "pl" {
+		bi.ResponsePayload = good // a status that is not Success decides, whatever the item carries
 	}
 	return bi
 }
@@ -277,7 +282,7 @@ func carries(errText, class, msg string) bool {
 	}
 	if parts[0] == "F" {
 		switch parts[2] {
-		case "known":
+		case "known", "pl":
 			return strings.Contains(errText, ttlv.EnumStr(kmip.ResultReasonItemNotFound))
 		case "unknown":
 			return strings.Contains(strings.ToLower(errText), "7777")
